@@ -29,7 +29,7 @@ func genC28(seed uint64, tier string) *Case {
 	c := &Case{P: map[string]int64{"policy": int64(g.Intn(4)), "tasks": int64(nt), "eof": int64(g.Pick(0, 0, 1, 2, 4)), "initerr": int64(g.Intn(5))}}
 	for t := 0; t < nt; t++ {
 		for k := 0; k < 1+g.Intn(2); k++ {
-			c.Steps = append(c.Steps, Step{Op: "sub", I: t, S: []string{"stream", "monitor", "query"}[g.Intn(3)], K: g.Intn(4), F: g.Bool(0.7), J: g.Intn(4)})
+			c.Steps = append(c.Steps, Step{Op: "sub", I: t, S: []string{"stream", "monitor", "query"}[g.Intn(3)], K: g.Intn(4), F: g.Bool(0.7), J: g.Intn(4), U: uint64(g.Pick(0, 0, 1, 2))})
 		}
 	}
 	if g.Bool(0.7) {
@@ -211,8 +211,13 @@ func execC28(r *Run) {
 					sub.logCh = make(chan string, 8)
 					sub.handle, sub.err = cl.Monitor("DEBUG", sub.logCh)
 				case "query":
-					sub.ackCh = make(chan string, 8)
-					sub.respCh = make(chan client.NodeResponse, 8)
+					// a caller may be interested in acknowledgements only, responses only, or both
+					if s.U != 1 {
+						sub.ackCh = make(chan string, 8)
+					}
+					if s.U != 2 {
+						sub.respCh = make(chan client.NodeResponse, 8)
+					}
 					sub.err = cl.Query(&client.QueryParam{Name: "q", AckCh: sub.ackCh, RespCh: sub.respCh, Timeout: time.Second})
 				}
 				if s.F && sub.err == nil && s.S != "query" {
@@ -266,14 +271,27 @@ func execC28(r *Run) {
 				}
 			})
 		default:
-			chClosed = isClosed(func() (bool, bool) {
-				select {
-				case _, ok := <-sub.respCh:
-					return true, ok
-				default:
-					return false, false
-				}
-			})
+			chClosed = true
+			if sub.respCh != nil {
+				chClosed = isClosed(func() (bool, bool) {
+					select {
+					case _, ok := <-sub.respCh:
+						return true, ok
+					default:
+						return false, false
+					}
+				})
+			}
+			if sub.ackCh != nil {
+				chClosed = isClosed(func() (bool, bool) {
+					select {
+					case _, ok := <-sub.ackCh:
+						return true, ok
+					default:
+						return false, false
+					}
+				}) && chClosed
+			}
 		}
 		r.Logf("sub %d %s err=%v stopped=%v stopErr=%v chClosed=%v clientClosed=%v", i, sub.kind, sub.err, sub.stopped, sub.stopErr, chClosed, closed)
 		if (closed || sub.stopped) && sub.err == nil && !chClosed {
